@@ -285,6 +285,9 @@ unsafe fn sym(name: &str) -> *mut libc::c_void {
 static MON: std::sync::OnceLock<Option<Mon>> = std::sync::OnceLock::new();
 
 pub fn mon() -> Option<&'static Mon> {
+    if cfg!(miri) {
+        return None; // Miri cannot call into the interposer
+    }
     MON.get_or_init(|| unsafe {
         if sym("ipcmon_present").is_null() {
             return None;
